@@ -197,6 +197,27 @@ def lead_spaces(R: Draw, rs, node: dict) -> dict:  # noqa: ANN001
     ("one", em(" two"), strong(" three")) - the shape in which each boundary space belongs to the run on its right."""
     if rs.textblock.get(node["t"]) and not rs.nodes[node["t"]].get("code"):
         kids = node["c"]
+        plain_marks = [m for m in rs.mark_names if not rs.marks[m].get("attrs") and rs.allows_mark(node["t"], m)]
+        texts = [i for i, c in enumerate(kids) if c["t"] == "text"]
+        if texts and len(plain_marks) >= 2 and R.bool(0.3):
+            # split one text child into three runs whose mark sets differ pairwise-adjacently (toggle one mark each)
+            from ..ref import marks as rm
+
+            i = R.choice(texts)
+            base = kids[i]
+            x, y = R.sample(plain_marks, 2)
+
+            def toggle(ms: list, name: str) -> list:
+                if any(m[0] == name for m in ms):
+                    return [m for m in ms if m[0] != name]
+                return rm.sorted_by_rank(rs, [*ms, [name, {}]])
+
+            m2 = toggle(base["m"], x)
+            m3 = toggle(m2, y)
+            word = base["x"].strip(" ") or "w"
+            three = [{**base, "x": word}, {**base, "m": m2, "x": " two"}, {**base, "m": m3, "x": " three"}]
+            kids = kids[:i] + three + kids[i + 1 :]
+            node = {**node, "c": kids}
         if len([c for c in kids if c["t"] == "text"]) >= 2 and R.bool(0.5):
             out = []
             for i, c in enumerate(kids):
